@@ -2,8 +2,8 @@
 from . import sockrules as S
 from . import srvrules as R
 
-META = {'level': 'other', 'explanation': 'see DESIGN.md 5/C06', 'trusted_base': [],
-        'not_decided': [], 'assumptions': []}
+from .meta import meta
+META = meta('C06', level='other', extra_tb=None)
 
 
 def check(A):
